@@ -150,6 +150,22 @@ def values_for(case, t, n):
         'tp_l': np.arange(n, dtype=np.int64) + BIG + t,
         'tsm': SpeciesValues({Species(sp): modes(val('tsm', t, sp) + k / 8 for k in range(4)) for sp in sets['tsm']}),
     }
+    # Codec.tla DataTypes "extremes": every value of a field's type other than the container's own marker for "never
+    # written" is a value - in every second case the second trajectory carries the far ends of the types (a float
+    # beyond 1e37 or +inf, the smallest 32-bit and 64-bit integers, a species value of 1e300)
+    import zlib
+
+    h = zlib.crc32(repr((case['layout'], sorted(case['unset']), case.get('arr'), case['dflt'])).encode())
+    if t == 2 and h % 2 == 0:
+        if v['t_f'] is not None:
+            v['t_f'] = 1e300 if h % 4 == 0 else float('inf')
+        if v['t_i'] is not None:
+            v['t_i'] = -(2**31)
+        v['t_l'] = -(2**63)
+        v['t_req'] = 1e300
+        if len(v['ts1']):
+            sp0 = sorted(v['ts1'].keys(), key=int)[0]
+            v['ts1'] = SpeciesValues({sp: (1e300 if sp == sp0 else x) for sp, x in v['ts1'].items()})
     return v
 
 
